@@ -275,18 +275,7 @@ def reachable_ids(st):
     return ids
 
 
-def run(ctx):
-    common.setup_repo_import()
-    from fast_ticc import cluster_maintenance as cm, graphical_lasso as gl, cluster_label_assignment as cla
-    from fast_ticc.containers import arguments, model_state
-
-    if ctx.replay is not None:
-        hists = [ctx.replay] if "len" in ctx.replay else []
-        cfgs = [] if "len" in ctx.replay else [ctx.replay]
-    else:
-        hists = [c for c in ctx.corpus if "len" in c] + [gen_history(ctx.rng) for _ in range(120 if ctx.quick() else 2500)]
-        cfgs = [c for c in ctx.corpus if "len" not in c] + [tu.gen_config(ctx.rng) for _ in range(6 if ctx.quick() else 60)]
-
+def check_histories(ctx, hists, cm, gl, cla, arguments, model_state):
     lines, played = [], []
     for h in hists:
         ops, dumps, problems, kinds = play(ctx, h, cm, gl, cla, arguments, model_state)
@@ -320,6 +309,22 @@ def run(ctx):
         nontrivial = bool(kinds & {"repop", "stats", "opt", "relabel"}) and bool(kinds & {"assign", "shallow", "deep"})
         ctx.case(("hist", tuple(ops)), nontrivial,
                  sample={"ops": [o.split(":")[0] + ":" + o.split(":")[1] for o in ops[1:]][:12]} if len(ctx.samples) < 3 else None)
+
+
+
+def run(ctx):
+    common.setup_repo_import()
+    from fast_ticc import cluster_maintenance as cm, graphical_lasso as gl, cluster_label_assignment as cla
+    from fast_ticc.containers import arguments, model_state
+
+    if ctx.replay is not None:
+        hists = [ctx.replay] if "len" in ctx.replay else []
+        cfgs = [] if "len" in ctx.replay else [ctx.replay]
+    else:
+        hists = [c for c in ctx.corpus if "len" in c] + [gen_history(ctx.rng) for _ in range(120 if ctx.quick() else 2500)]
+        cfgs = [c for c in ctx.corpus if "len" not in c] + [tu.gen_config(ctx.rng) for _ in range(6 if ctx.quick() else 60)]
+
+    check_histories(ctx, hists, cm, gl, cla, arguments, model_state)
 
     # ---------------- phase boundaries of traced real runs
     for cfg in cfgs:
